@@ -48,6 +48,29 @@ var delimFamilies = []delims{
 
 func pickDelims(r *h.Rand) delims { return delimFamilies[r.Intn(len(delimFamilies))] }
 
+// delimiters chosen to collide with the lexer's own markers: a right delimiter that starts like the
+// right trim marker or with a space, a left delimiter that ends like the left trim marker, one-byte
+// delimiters, comment delimiters that extend the action delimiters, delimiters that look like operators
+var hostileDelims = []delims{
+	{L: "{{", R: " -}"},
+	{L: "<", R: " -"},
+	{L: "{{", R: " }}"},
+	{L: "{{-", R: "}}"},
+	{L: "{{- ", R: " -}}"},
+	{L: "{", R: "}"},
+	{L: "(", R: ")"},
+	{L: "{{", R: "}}", LC: "{{*", RC: "*}}"},
+	{L: "{*", R: "*}", LC: "{{", RC: "}}"},
+	{L: "-", R: "-"},
+	{L: "{{", R: "|"},
+	{L: ".", R: ":"},
+	{L: "é", R: "é"},
+	{L: "\xff", R: "\xfe"},
+	{L: "{{", R: "}}", LC: "{", RC: "}"},
+}
+
+func pickHostileDelims(r *h.Rand) delims { return hostileDelims[r.Intn(len(hostileDelims))] }
+
 // ---------------------------------------------------------------- expression source
 
 var identPool = []string{"a", "b", "s", "m", "f", "x1", "_y", "é", "item", "upper", "len", "isset", "true", "false", "nil"}
